@@ -109,5 +109,12 @@ pub fn run(ctx: &mut Ctx) {
         let n = ctx.n(160, 3000) / <S as Scheme>::WEIGHT.max(1);
         ctx.run_cases(<S as Scheme>::NAME, n.max(4), |ctx, _i, rng| case::<S>(ctx, rng));
     });
+    // the same oracle on configurations with more than a thousand coefficients
+    crate::schemes::set_large(true);
+    for_each_scheme!(ctx, S, {
+        let n = if ctx.is_thorough() { 12 } else { 4 };
+        ctx.run_cases(&format!("{}/large", <S as Scheme>::NAME), n, |ctx, _i, rng| case::<S>(ctx, rng));
+    });
+    crate::schemes::set_large(false);
     super::offtrait::c01(ctx);
 }
